@@ -77,6 +77,8 @@ class Opts:
         self.machine = False       # optimiser-output semantics: no UB sites, flags ignored, shifts masked? (no)
         self.prefix = ""           # name prefix for fresh symbols
         self.track_ub = True
+        self.facts = ()            # domain facts (z3 Bools) the caller assumes anyway: used ONLY to prune branches whose condition
+        #                            they decide (a solver check on the condition alone); the caller must assert them in its query
         self.__dict__.update(kw)
 
 
@@ -388,6 +390,8 @@ def encode(mod, fname, args, opts=None):
                 edges = [(term.extra[0], z3.BoolVal(True))]
             else:
                 c = simp(truth(ex.operand(term.args[0], env)))
+                if opts.facts and not is_true(c) and not is_false(c):
+                    c = decide_under(opts.facts, c)
                 edges = [(term.extra[0], c), (term.extra[1], simp(z3.Not(c)))]
                 if term.extra[0] == term.extra[1]:
                     edges = [(term.extra[0], z3.BoolVal(True))]
@@ -1257,6 +1261,25 @@ def lemma_selftest():
         s.add(z3.Not(z3.And(mul_lemmas(app, mul=x * y) + magnitude_lemmas(app, mul=x * y))))
         _LEMMA_OK = s.check() == z3.unsat
     return _LEMMA_OK
+
+
+def decide_under(facts, c, budget_ms=200):
+    """c, or True/False when the facts decide it (two small solver checks; anything not decided in the budget stays symbolic)"""
+    if len(str(c)) > 400:
+        return c
+    sv = z3.Solver()
+    sv.set("timeout", budget_ms)
+    sv.add(*facts)
+    sv.push()
+    sv.add(z3.Not(c))
+    r = sv.check()
+    sv.pop()
+    if r == z3.unsat:
+        return z3.BoolVal(True)
+    sv.add(c)
+    if sv.check() == z3.unsat:
+        return z3.BoolVal(False)
+    return c
 
 
 def sadd_ovf(a, b):
